@@ -3,6 +3,7 @@ package checks
 import (
 	"bytes"
 	"fmt"
+	"sync"
 
 	"github.com/gregoryv/mq"
 
@@ -19,7 +20,7 @@ func init() { register(c15{}) }
 func (c15) ID() string    { return "C15" }
 func (c15) Level() string { return "exploration" }
 func (c15) Rule() string {
-	return "through the verif-tagged hooks around the unexported codec. Values: encode with the library (dry run + write, as the packet encoders do), compare with the reference encoding and the reserved width, decode the bytes (followed by sentinel bytes) with the in-memory and the streaming decoder, check value, advance and bytes drawn from the reader — thorough: ALL 2^28 values; quick: all values below 2^21, +-64 around every size step, 2^20 stratified random values. Sequences: the in-memory decoder, the streaming decoder and the reference decoder run on every byte sequence of length 1..3 and (thorough) 4, i.e. 2^32 sequences, or (quick) 2^24 random 4-byte ones: the two library decoders must agree on rejection and value, must reject what ends on a continuation byte or continues past four bytes, and must decode minimal forms exactly; 5-byte sequences: four continuation bytes (all 2^28 prefixes in thorough, 2^20 random in quick) x fifth byte in {00,01,7f,80,ff}. Cross-check through the public API: Subscribe.SetSubscriptionID round trip over the boundary set and the remaining-length bytes of PUBLISH frames whose size sweeps every step. distinct = values / sequences enumerated (counted by the loops; random ones via a hash set); non-trivial = all"
+	return "through the verif-tagged hooks around the unexported codec. Values: encode with the library (dry run + write, as the packet encoders do), compare with the reference encoding and the reserved width, decode the bytes (followed by sentinel bytes) with the in-memory and the streaming decoder, check value, advance and bytes drawn from the reader — thorough: ALL 2^28 values; quick: all values below 2^21, +-64 around every size step, 2^20 stratified random values. Sequences: the in-memory decoder, the streaming decoder and the reference decoder run on every byte sequence of length 1..3 and (thorough) 4, i.e. 2^32 sequences, or (quick) 2^24 random 4-byte ones: the two library decoders must agree on rejection and value, must reject what ends on a continuation byte or continues past four bytes, and must decode minimal forms exactly; 5-byte sequences: four continuation bytes (all 2^28 prefixes in thorough, 2^20 random in quick) x fifth byte in {00,01,7f,80,ff}. Cross-check through the public API: Subscribe.SetSubscriptionID round trip over the boundary set the remaining-length bytes of PUBLISH frames whose size sweeps every step, and PUBLISH packets with several subscription identifiers. Decoding into a receiver that already holds a value, and the streaming decoder in eight goroutines on distinct readers under the race detector, must give the same results. distinct = values / sequences enumerated (counted by the loops; random ones via a hash set); non-trivial = all"
 }
 func (c15) Assumptions() []string {
 	return []string{"non-minimal encodings (e.g. 80 00) need not be rejected: only agreement of the two decoders on value or rejection is demanded for them", "the hooks call the same unexported functions the packet codecs use (verif_hooks.go, build tag verif)"}
@@ -36,13 +37,14 @@ const (
 	c15Seqs
 	c15Five
 	c15Public
+	c15Concurrent
 )
 
 func (c15) Phases(env run.Env) []run.Phase {
 	if env.Thorough {
-		return []run.Phase{{Name: "values", N: 4096}, {Name: "sequences<=4", N: 256 * 16}, {Name: "five-bytes", N: 4096}, {Name: "public-api", N: 64}}
+		return []run.Phase{{Name: "values", N: 4096}, {Name: "sequences<=4", N: 256 * 16}, {Name: "five-bytes", N: 4096}, {Name: "public-api", N: 64}, {Name: "concurrent-streams", Race: true, N: 64}}
 	}
-	return []run.Phase{{Name: "values", N: 32 + 8 + 16}, {Name: "sequences<=4", N: 256}, {Name: "five-bytes", N: 16}, {Name: "public-api", N: 16}}
+	return []run.Phase{{Name: "values", N: 32 + 8 + 16}, {Name: "sequences<=4", N: 256}, {Name: "five-bytes", N: 16}, {Name: "public-api", N: 16}, {Name: "concurrent-streams", Race: true, N: 16}}
 }
 
 type c15state struct {
@@ -77,6 +79,18 @@ func (s *c15state) value(v uint32) {
 	s.evals++
 	if err != nil || val != uint64(v) || adv != len(want) {
 		s.fail("C15/decode-memory", fmt.Sprintf("% x decoded in memory as value=%d advance=%d err=%v, want value=%d advance=%d", in, val, adv, err, v, len(want)), map[string]interface{}{"value": v})
+	}
+	// a receiver that already holds another value must not matter
+	if v%97 == 0 || v < 300 {
+		prev := uint32(0x0fffffff) ^ v*7
+		if val, adv, err := mq.VerifVBIUnmarshalReuse(prev, in); err != nil || val != uint64(v) || adv != len(want) {
+			s.fail("C15/decode-memory-reused-receiver", fmt.Sprintf("% x decoded into a receiver holding %d as value=%d advance=%d err=%v, want %d/%d", in, prev, val, adv, err, v, len(want)), map[string]interface{}{"value": v, "previous": prev})
+		}
+		s.rd.Reset(in)
+		if val, n, err := mq.VerifVBIReadFromReuse(prev, &s.rd); err != nil || val != uint64(v) || n != int64(len(want)) {
+			s.fail("C15/decode-stream-reused-receiver", fmt.Sprintf("% x read into a receiver holding %d as value=%d n=%d err=%v, want %d/%d", in, prev, val, n, err, v, len(want)), map[string]interface{}{"value": v, "previous": prev})
+		}
+		s.evals += 2
 	}
 	s.rd.Reset(in)
 	val, n, err := mq.VerifVBIReadFrom(&s.rd)
@@ -268,6 +282,60 @@ func (c15) Run(c *run.Ctx, phase, idx int) {
 	case c15Public:
 		c15PublicAPI(c, s, r, idx)
 		distinct = 0
+	case c15Concurrent:
+		// the streaming decoder on distinct readers in several goroutines
+		// (race-detector build): every one must get its own value
+		c.Concurrent(true)
+		before := raceLogSize(c.RaceLogPrefix())
+		const G = 8
+		vals := make([][]uint32, G)
+		for g := range vals {
+			for i := 0; i < 4000; i++ {
+				vals[g] = append(vals[g], gen.VBI(r))
+			}
+		}
+		bad := make([]string, G)
+		start := make(chan struct{})
+		var wg sync.WaitGroup
+		for g := 0; g < G; g++ {
+			wg.Add(1)
+			go func(g int) {
+				defer wg.Done()
+				var rd bytes.Reader
+				var buf [8]byte
+				<-start
+				for _, v := range vals[g] {
+					enc := ref.AppendVBI(buf[:0], v)
+					rd.Reset(enc)
+					got, n, err := mq.VerifVBIReadFrom(&rd)
+					if err != nil || got != uint64(v) || n != int64(len(enc)) {
+						bad[g] = fmt.Sprintf("% x read as %d (n=%d err=%v) while other goroutines decode other streams", enc, got, n, err)
+						return
+					}
+					if mv, _, err := mq.VerifVBIUnmarshal(enc); err != nil || mv != uint64(v) {
+						bad[g] = fmt.Sprintf("% x decoded in memory as %d (err=%v) while other goroutines decode", enc, mv, err)
+						return
+					}
+				}
+			}(g)
+		}
+		close(start)
+		wg.Wait()
+		s.evals += G * 4000 * 2
+		distinct = 0
+		c.Distinct(run.Hash64("concurrent", itoa(idx)), true)
+		for g := range bad {
+			if bad[g] != "" {
+				c.Violation("C15/concurrent-streams/value", bad[g], nil)
+				break
+			}
+		}
+		if after := raceLogSize(c.RaceLogPrefix()); after > before {
+			c.Violation("RACE/reported-during-case", "the race detector reported a race while eight goroutines ran the streaming decoder on distinct readers", nil)
+		}
+		if idx == 0 {
+			c.Sample(map[string]interface{}{"concurrent": "8 goroutines x 4000 values, streaming and in-memory decoder on goroutine-local readers, race-detector build"})
+		}
 	}
 }
 
@@ -301,6 +369,41 @@ func c15PublicAPI(c *run.Ctx, s *c15state, r *gen.RNG, idx int) {
 		res := libRead(b)
 		if !res.Accepted() || res.Pkt.(*mq.Subscribe).SubscriptionID() != int(id) {
 			s.fail("C15/public/subid-roundtrip", fmt.Sprintf("subscription identifier %d does not survive a round trip", id), nil)
+		}
+	}
+	// several subscription identifiers in one PUBLISH: each decoded exactly, in order
+	for k := 0; k < 24; k++ {
+		n := 2 + r.Intn(4)
+		p := mq.NewPublish()
+		p.SetTopicName("t")
+		var want []uint32
+		for i := 0; i < n; i++ {
+			id := gen.VBI(r)
+			if r.Chance(1, 3) {
+				id = uint32(1 + r.Intn(300))
+			}
+			want = append(want, id)
+			p.AddSubscriptionID(id)
+		}
+		p.SetPayload([]byte("payload"))
+		b, _, werr, pan := libEncode(p)
+		s.evals++
+		c.Distinct(run.Hash64("multi-subid", fmt.Sprint(want)), true)
+		if werr != nil || pan != nil {
+			s.fail("C15/public/multi-subid-write", "PUBLISH with several subscription identifiers: WriteTo failed", nil)
+			continue
+		}
+		res := libRead(b)
+		ok := res.Accepted()
+		if ok {
+			got := res.Pkt.(*mq.Publish).SubscriptionIDs()
+			ok = len(got) == len(want) && string(res.Pkt.(*mq.Publish).Payload()) == "payload"
+			for i := range want {
+				ok = ok && got[i] == want[i]
+			}
+		}
+		if !ok {
+			s.fail("C15/public/multi-subid-roundtrip", fmt.Sprintf("PUBLISH with subscription identifiers %v does not survive a round trip (frame % x)", want, b), nil)
 		}
 	}
 	// remaining length of PUBLISH frames around every size step
